@@ -284,6 +284,7 @@ func (d *AuthGrid) Eval(x *Exec, root *Node, gc GridCase) GridResult {
 		has[s] = true
 	}
 	sufficient := false
+	var satisfied []string
 	for _, alt := range r.Req {
 		ok := true
 		for _, s := range alt {
@@ -298,9 +299,13 @@ func (d *AuthGrid) Eval(x *Exec, root *Node, gc GridCase) GridResult {
 		}
 		if ok {
 			sufficient = true
+			satisfied = append(satisfied, strings.Join(alt, "+"))
 		}
 	}
 	where := map[string]any{"n": d.N, "contract": r.Contract, "method": r.Method, "signers": c.Signer}
+	if len(r.Req) > 1 && len(satisfied) == 1 {
+		where["only_alternative"] = satisfied[0] // which of several documented witness alternatives is the one present
+	}
 	var vs []*Violation
 	var adv uint32
 	if strings.HasPrefix(r.Kind, "redesignate") {
@@ -368,6 +373,11 @@ func (d *AuthGrid) Eval(x *Exec, root *Node, gc GridCase) GridResult {
 				vs = append(vs, Viol("required-witness-refused", fmt.Sprintf("%s.%s with the required witnesses (%s) faults: %s", r.Contract, r.Method, c.Signer, o.Fault), where))
 			}
 			out = "succeeded"
+			if o.Halt && inert {
+				// the authorised run itself has no effect in this base state: the "inert without the witnesses" verdicts
+				// of this row say little (listed in the evidence, never a failure)
+				out = "succeeded-without-effect"
+			}
 		} else if !inert {
 			vs = append(vs, Viol("effect-without-witness", fmt.Sprintf("%s.%s under %s (required %v): halt=%v, storage diff %v, notifications %v", r.Contract, r.Method, c.Signer, r.Req, o.Halt, diff, o.Notifs), where))
 		} else if o.Halt {
@@ -420,7 +430,8 @@ func authTable() []authRow {
 			return []any{[]byte("l2"), d.u.Hash, util.Uint160{0xf2, 0xf2}, int64(5), int64(50)}
 		}, al, ""},
 		{"balance", "newEpoch", func(d *AuthGrid, w *World) []any { return []any{int64(100)} }, al, ""},
-		{"balance", "transferX", func(d *AuthGrid, w *World) []any { return []any{d.u.Hash, d.s.Hash, int64(5), []byte("x")} }, al, ""},
+		// documented: "It can be invoked by the account owner or by Alphabet nodes"
+		{"balance", "transferX", func(d *AuthGrid, w *World) []any { return []any{d.u.Hash, d.s.Hash, int64(5), []byte("x")} }, [][]string{{"AL"}, {"U"}}, ""},
 		{"balance", "transfer", func(d *AuthGrid, w *World) []any { return []any{d.u.Hash, d.s.Hash, int64(5), nil} }, k("U"), ""},
 		{"balance", "update", self("balance"), cm, "update"},
 		// ---- container ----
